@@ -682,6 +682,26 @@ def touchedDb (resp : Response) : Option String :=
   | .handler n _ _ _ _ => some n
   | _ => none
 
+/-! ## A request whose body arrives later (time of check = time of use)
+
+The route layer `require_auth` decides from the HEADERS, when the head of the request arrives; the
+handler runs when the BODY has been buffered, and `execute_rpc` authorises AGAIN at that moment
+(generated fact `executeAuthorizesAtExecution`). So a request begun in state `sBegin` and finished in
+state `sNow` is rejected if it was not authorised at `sBegin` (answered by the route layer, the body
+is never looked at), and otherwise answered exactly like a fresh request in `sNow`: nothing decided
+at header time is carried along. -/
+def handleSplit (cfg : Cfg) (sBegin sNow : State) (r : Request) : State × Response :=
+  match r.verb, r.target with
+  | .post, .root =>
+    match authorizeState cfg sBegin .root (bearerToken r.auth) with
+    | .error _ => (sNow, ⟨negotiateOr r.accept r.contentType .cbor, .err .unauthorized, none⟩)
+    | .ok _ => handle cfg sNow r
+  | .post, .db n =>
+    match authorizeState cfg sBegin (.database n) (bearerToken r.auth) with
+    | .error _ => (sNow, ⟨negotiateOr r.accept r.contentType .cbor, .err .unauthorized, none⟩)
+    | .ok _ => handle cfg sNow r
+  | _, _ => handle cfg sNow r
+
 /-- what `AppState::connect` loads from the store -/
 def loadDurable (cfg : Cfg) (s : State) : State :=
   { s with bound := s.durableBound,
